@@ -76,7 +76,10 @@ fn bad_request(g: &mut Rng, id: &str) -> (Vec<u8>, String) {
         _ => {
             let name = *g.pick(&["Expect", "expect", "EXPECT", "eXpEcT"]);
             let val = *g.pick(&["200-ok", "100-continue-x", "x100-continue", "continue", "100", "100-continue, foo", "", "189-dummy"]);
-            (raw(&["POST /e HTTP/1.1".to_string(), idl, format!("{}: {}", name, val), "Content-Length: 0".into()], b""), "bad_expect".into())
+            // the refusal is decided by the head alone: a body that is announced but withheld
+            // (a client sending Expect waits for a status first) must not delay the 417
+            let cl = *g.pick(&[0usize, 0, 5, 1024, 1025, 70000]);
+            (raw(&["POST /e HTTP/1.1".to_string(), idl, format!("{}: {}", name, val), format!("Content-Length: {}", cl)], b""), if cl == 0 { "bad_expect".into() } else { "bad_expect_body_withheld".into() })
         }
     }
 }
